@@ -400,7 +400,9 @@ func oracle(c kase, res implResult, rep *hx.Report) {
 				okSetup = len(f) == 2 && invalidNames[string(hx.UnHex(f[0]))]
 			}
 		}
-		if !(okSetup || (tooMany && res.kind == "parse-error" && res.detail == "toomany")) {
+		// calling a value that is not a function at all may already be refused by the parser
+		notFuncCalled := t.Kind != "func" && !c.AwkDef && res.kind == "parse-error" && res.detail == "notfunc"
+		if !(okSetup || notFuncCalled || (tooMany && res.kind == "parse-error" && res.detail == "toomany")) {
 			fail(shape, "functions of an undocumented shape or with a keyword name are rejected at set-up", "set-up error naming the function", res.cmp(c.Route))
 		}
 		return
